@@ -260,11 +260,48 @@ func init() {
 		Assumptions: []string{"strings longer than the bound or with letters outside the alphabet are covered only through the mutation tokens", "reference grammar: ref.ParseInt/ParseExt/ParseSpatial (the language of strconv.ParseInt base 10)"},
 		Phases: func(tier string) []engine.Phase {
 			sigma := []byte{'0', '1', '9', '-', '+', '/', 'a', ' '}
-			maxLen := 4
+			maxLen := 5
 			if tier == "thorough" {
-				maxLen = 6
+				maxLen = 7 // reaches every well-formed 4-field ID with one-character fields
 			}
-			return []engine.Phase{
+			shortStrings := func(sigma []byte, maxLen int) func(c *engine.Ctx) {
+				return func(c *engine.Ctx) {
+					var b []byte
+					for i := 0; i < maxLen; i++ {
+						k := 1 + c.In("ch", len(sigma))
+						b = append(b, sigma[k-1])
+					}
+					s := string(b)
+					c.Observe("%q", s)
+					if strings.Count(s, "/") >= 3 {
+						c.Nontrivial(s)
+					}
+					judgeID(c, s, 1)
+					if c.WantSample() && strings.Count(s, "/") == 4 {
+						c.Sample(map[string]any{"candidate": s})
+					}
+				}
+			}
+			var extra []engine.Phase
+			small := []byte{'0', '-', '/', 'a'}
+			nSmall := "{0,-,/,a} (327 680 strings;"
+			if tier == "thorough" {
+				small = []byte{'0', '1', '9', '-', '+', '/', 'a'}
+				nSmall = "{0,1,9,-,+,/,a} (46 118 408 strings;"
+			}
+			{
+				extra = append(extra,
+					engine.Phase{Name: "all-strings-of-length-8-and-9", ShardDepth: 3, Bounds: engine.Bounds{InputDev: -1},
+						Rule: "every string of length exactly 8 and exactly 9 over " + nSmall + " contains every 5-field ID with one-character fields and every one-character corruption of it within the alphabet) through the 24 ID-consuming functions, same oracle as all-short-strings",
+						Body: func(c *engine.Ctx) {
+							if c.In("len", 2) == 0 {
+								shortStrings(small, 8)(c)
+							} else {
+								shortStrings(small, 9)(c)
+							}
+						}})
+			}
+			return append([]engine.Phase{
 				{Name: "all-short-strings", ShardDepth: 3, Bounds: engine.Bounds{InputDev: -1},
 					Rule: "every string over {0,1,9,-,+,/,a,space} up to the length bound as the candidate ID of each of the 24 ID-consuming functions (list functions: as only element): malformed => error / empty ID, never a panic; well-formed => no panic; non-trivial = distinct malformed strings containing at least three '/'",
 					Body: func(c *engine.Ctx) {
@@ -352,7 +389,7 @@ func init() {
 				{Name: "points", Serial: true, Bounds: engine.Bounds{InputDev: -1},
 					Rule: "NewPoint/SetLon/SetLat on float alphabets around +-180 and +-85.0511287798 (sliver (85.0511287798, 85.0511287799) excluded), infinities; accepted points keep lon/alt bit-for-bit and latitude cut toward zero by < 1e-10; nil points in point lookup, line and corridor; non-trivial = distinct coordinates within 1e-6 of a limit",
 					Body: pointArgs},
-			}
+			}, extra...)
 		},
 	})
 }
